@@ -29,12 +29,33 @@ def boolNames : List String := ["enabled", "persisted", "internal"]
 def parseAttr (s : String) : Option (String × AVal) :=
   match s.splitOn ":" with
   | [n, "g"] => some (n, if boolNames.contains n then .bool true else if n = "gain" then .int 3 else .str "x")
+  | [n, "f"] => if boolNames.contains n then some (n, .bool false) else none
   | [n, "b"] => some (n, .str "BAD(")
   | [n, "t"] => some (n, if boolNames.contains n then .str "x" else .bool true)
   | _ => none
 
+def parsePV (s : String) : Option (Option PVal) :=
+  if s = "-" then some none
+  else if s = "b:1" then some (some (.bool true))
+  else if s = "b:0" then some (some (.bool false))
+  else if s.startsWith "n:" then ((s.drop 2).toString.toInt?).map (fun n => some (.num n))
+  else none
+
+def fmtPV : Option PVal → String
+  | none => "-"
+  | some (.num n) => "n:" ++ toString n
+  | some (.bool b) => if b then "b:1" else "b:0"
+
 def parseEntry (w : String) : Option PortDoc :=
   match w.splitOn "/" with
+  | [id, v, d, attrs, val] =>
+    match parseEntry4 id v d attrs, parsePV val with
+    | some e, some pv => some { e with value := pv }
+    | _, _ => none
+  | [id, v, d, attrs] => parseEntry4 id v d attrs
+  | _ => none
+where parseEntry4 (id v d attrs : String) : Option PortDoc :=
+  match [id, v, d, attrs] with
   | [id, v, d, attrs] =>
     let fs := if attrs = "-" then some [] else (attrs.splitOn ",").mapM parseAttr
     match fs with
@@ -49,6 +70,30 @@ def dstep (d : DState) : List String → DState × String
   | ["begin"] => ({}, "ok")
   | ["static", id] =>
     ({ d with st := { d.st with ports := upd d.st.ports id (some (fresh staticDef)) }, ids := id :: d.ids }, "ok")
+  | ["static", id, en, val] =>
+    -- a non-virtual port of the target with its enabled flag and current value
+    match parsePV val with
+    | some pv =>
+      let p := (setAttr cfg0 (fresh staticDef) "enabled" (.bool (en == "e"))).1
+      ({ d with st := { d.st with ports := upd d.st.ports id (some { p with value := pv }) }, ids := id :: d.ids }, "ok")
+    | none => (d, "bad-op")
+  | "sput" :: ws =>
+    -- PUT /devices on an abstracted document: `v` = acceptable entry, `x` = entry failing the entry schema
+    match ws.mapM (fun w => if w = "v" then some true else if w = "x" then some false else none) with
+    | none => (d, "bad-op")
+    | some flags =>
+      let mk (i : Nat) : String × Slave := (s!"s{i}", { enabled := false, scheme := "http", host := "h", port := i, path := "/",
+        pwHash := "", pollInterval := 0, listenEnabled := false, lastSync := -1, attrs := [], provAttrs := [] })
+      let docs := (List.range flags.length).zip flags |>.map (fun x => if x.2 then some (mk x.1) else none)
+      let (st', r) := putSlavesDoc d.st docs
+      let n := ((List.range flags.length).filter (fun i => (st'.slaves s!"s{i}").isSome)).length
+      let head := match r with | .ok => "ok" | .err i => s!"err {i}"
+      ({ d with st := st' }, s!"{head} updating={if st'.updating then 1 else 0} events={if st'.events then 1 else 0} n={n}")
+  | ["dput", f] =>
+    if f = "v" ∨ f = "x" then
+      let (st', ok) := putDeviceDoc d.st (if f = "v" then some { name := "n", displayName := "d" } else none)
+      ({ d with st := st' }, s!"{if ok then "ok" else "err"} updating={if st'.updating then 1 else 0} events={if st'.events then 1 else 0} name={st'.device.name}")
+    else (d, "bad-op")
   | ["vport", id] =>
     ({ d with st := { d.st with ports := upd d.st.ports id (some (fresh (vportDef false numDef))) }, ids := id :: d.ids }, "ok")
   | "put" :: ws =>
@@ -63,7 +108,8 @@ def dstep (d : DState) : List String → DState × String
         | .err id .invalidField => s!"err {id} invalid-field"
         | .err id .invalidDef => s!"err {id} invalid-def"
       ({ d with st := st', ids := ids },
-       s!"{head} updating={if st'.updating then 1 else 0} events={if st'.events then 1 else 0} ports={",".intercalate present}")
+       s!"{head} updating={if st'.updating then 1 else 0} events={if st'.events then 1 else 0} ports={",".intercalate present}" ++
+       " vals=" ++ ",".intercalate (present.filterMap (fun i => (st'.ports i).map (fun p => i ++ "=" ++ fmtPV p.value))))
   | _ => (d, "bad-op")
 
 def main : IO Unit := run dstep {}
